@@ -739,3 +739,11 @@ def check(ctx):
     # shared oracle: operators return new values, operands bound to variables are never updated in place
     import alias_common
     alias_common.run(ctx, prefix="alias")
+
+
+# ---- refinement lemmas of the unified pipeline model for this property (Props/Pipeline3.lean): the fragment this check's
+# theorems are about IS what the whole-program model computes on instant / probability expressions
+import pipeline as _pl3
+LEAN_MODULES = LEAN_MODULES + [m for m in _pl3.LEAN_MODULES3 if m not in LEAN_MODULES]
+THEOREMS = THEOREMS + [t for t in _pl3.THEOREMS3.get(ID, []) if t not in THEOREMS]
+GEN = GEN + [g for g in _pl3.GEN3 if g not in GEN]
